@@ -100,7 +100,30 @@ func cmdC17X(args []string) {
 			n := rng.Intn(4)
 			var l []string
 			for j := 0; j < n; j++ {
-				switch rng.Intn(6) {
+				switch rng.Intn(8) {
+				case 6, 7:
+					// a VALID token around the sizes of small buffers, lower-case except for a run of upper-case letters at the
+					// start, in the middle or at the very end (case mapping / lookup helpers with fixed-size scratch space)
+					ln := []int{15, 16, 17, 31, 32, 33, 63, 64, 65, 66, 73, 127, 128, 129, 255, 256, 257, 1000}[rng.Intn(18)]
+					b := []byte(strings.Repeat("a", ln))
+					if rng.Intn(2) == 0 {
+						b[0], b[1] = 'x', '-'
+					}
+					run := 1 + rng.Intn(3)
+					at := []int{0, ln / 2, ln - run, ln - 1, rng.Intn(ln)}[rng.Intn(5)]
+					for q := at; q < at+run && q < ln; q++ {
+						b[q] = 'A' + byte(rng.Intn(26))
+					}
+					if rng.Intn(3) == 0 { // ... or the other way round
+						for q := range b {
+							if b[q] >= 'a' && b[q] <= 'z' {
+								b[q] -= 32
+							} else if b[q] >= 'A' && b[q] <= 'Z' {
+								b[q] += 32
+							}
+						}
+					}
+					l = append(l, string(b))
 				case 0:
 					l = append(l, junkBytes(rng, rng.Intn(50)))
 				case 1:
@@ -193,13 +216,14 @@ func cmdC18(args []string) {
 	type kindCfg struct {
 		name string
 		s    Sem
+		many []string // a long sorted list of allowed request-header names, for the success-path ladders
 	}
 	kinds := []kindCfg{
-		{"allow-all", Sem{Any: true, Status: 204, Pna: "none", MAny: true}},
-		{"discrete", Sem{Pats: []cPattern{ex}, Status: 204, Pna: "none", Meths: []string{"PUT"}, HNames: []string{"x-a", "x-b"}, MaxAge: 30}},
-		{"star-headers-anonymous", Sem{Pats: []cPattern{ex}, Status: 204, Pna: "none", MAny: true, HStar: true, HAuth: true}},
-		{"star-headers-credentialed", Sem{Pats: []cPattern{ex}, Cred: true, Status: 204, Pna: "none", MAny: true, HStar: true, Expose: []string{"x-e"}}},
-		{"discrete-credentialed-pna", Sem{Pats: []cPattern{ex}, Cred: true, Status: 200, Pna: "cors", Meths: []string{"PUT"}, HNames: []string{"authorization", "x-a"}, HAuth: true}},
+		{"allow-all", Sem{Any: true, Status: 204, Pna: "none", MAny: true}, nil},
+		{"discrete", Sem{Pats: []cPattern{ex}, Status: 204, Pna: "none", Meths: []string{"PUT"}, HNames: []string{"x-a", "x-b"}, MaxAge: 30}, nil},
+		{"star-headers-anonymous", Sem{Pats: []cPattern{ex}, Status: 204, Pna: "none", MAny: true, HStar: true, HAuth: true}, nil},
+		{"star-headers-credentialed", Sem{Pats: []cPattern{ex}, Cred: true, Status: 204, Pna: "none", MAny: true, HStar: true, Expose: []string{"x-e"}}, nil},
+		{"discrete-credentialed-pna", Sem{Pats: []cPattern{ex}, Cred: true, Status: 200, Pna: "cors", Meths: []string{"PUT"}, HNames: []string{"authorization", "x-a"}, HAuth: true}, nil},
 	}
 	// a configuration with MANY allowed names: the success path of the discrete check with a growing number of allowed
 	// elements, padded in every tolerated way
@@ -207,23 +231,29 @@ func cmdC18(args []string) {
 	for i := 0; i < 128; i++ {
 		many = append(many, fmt.Sprintf("x-h%03d", i))
 	}
-	kinds = append(kinds, kindCfg{"discrete-128-names", Sem{Pats: []cPattern{ex}, Status: 204, Pna: "none", HNames: many}})
+	kinds = append(kinds, kindCfg{"discrete-128-names", Sem{Pats: []cPattern{ex}, Status: 204, Pna: "none", HNames: many}, many})
+	// ... and one with LONG names (beyond the 32- and 64-byte scratch buffers the compiler or a helper may use)
+	var long []string
+	for i := 0; i < 64; i++ {
+		long = append(long, fmt.Sprintf("x-tenant-identifier-of-the-upstream-service-%04d", i))
+	}
+	kinds = append(kinds, kindCfg{"discrete-64-long-names", Sem{Pats: []cPattern{ex}, Status: 204, Pna: "none", HNames: long}, long})
 	// configurations whose origin tree is DEEP (a chain of nested subdomains, each allowed: one tree level per label) or
 	// matches arbitrarily deep subdomains: the success path of the Origin lookup with an allowed origin of growing depth
 	var chain []cPattern
 	for i := 0; i <= 120; i++ {
 		chain = append(chain, cPattern{Scheme: "https", Host: strings.Repeat("a.", i) + "example.com"})
 	}
-	kinds = append(kinds, kindCfg{"nested-chain-121-origins", Sem{Pats: chain, Status: 204, Pna: "none", Meths: []string{"PUT"}, HNames: []string{"x-a"}}})
-	kinds = append(kinds, kindCfg{"nested-chain-credentialed", Sem{Pats: chain, Cred: true, Status: 204, Pna: "none", MAny: true, HStar: true}})
-	kinds = append(kinds, kindCfg{"wildcard-subdomains", Sem{Pats: []cPattern{{Scheme: "https", Wild: true, Host: "example.com"}, ex}, Status: 204, Pna: "none", Meths: []string{"PUT"}, HNames: []string{"x-a"}}})
+	kinds = append(kinds, kindCfg{"nested-chain-121-origins", Sem{Pats: chain, Status: 204, Pna: "none", Meths: []string{"PUT"}, HNames: []string{"x-a"}}, nil})
+	kinds = append(kinds, kindCfg{"nested-chain-credentialed", Sem{Pats: chain, Cred: true, Status: 204, Pna: "none", MAny: true, HStar: true}, nil})
+	kinds = append(kinds, kindCfg{"wildcard-subdomains", Sem{Pats: []cPattern{{Scheme: "https", Wild: true, Host: "example.com"}, ex}, Status: 204, Pna: "none", Meths: []string{"PUT"}, HNames: []string{"x-a"}}, nil})
 	deepKind := func(name string) bool { return strings.HasPrefix(name, "nested-chain") || name == "wildcard-subdomains" }
 	ladder := []int{1, 10, 100, 1000, 10000}
 	if *big {
 		ladder = append(ladder, 100000, 1<<20)
 	}
 	shapes := []string{"bytes", "elements", "empties", "lines", "emptylines", "ows", "allowed-then-junk",
-		"allowed", "allowed-sp", "allowed-tab", "allowed-both", "allowed-lines", "allowed-empties", "allowed-deep"}
+		"allowed", "allowed-sp", "allowed-tab", "allowed-both", "allowed-lines", "allowed-empties", "allowed-upper", "allowed-title", "allowed-deep"}
 	measures := 0
 	for _, kc := range kinds {
 		m, err := cors.NewMiddleware(*kc.s.spell(rng))
@@ -250,7 +280,7 @@ func cmdC18(args []string) {
 								continue
 							}
 							hd := http.Header{hOrigin: {"https://example.com"}, hACRM: {"PUT"}}
-							if kc.name == "discrete-128-names" {
+							if kc.many != nil {
 								hd[hACRM] = []string{"GET"} // safelisted: the header step is reached
 							}
 							var v []string
@@ -264,9 +294,11 @@ func cmdC18(args []string) {
 								}
 								v = []string{"https://" + strings.Repeat("a.", n) + "example.com"}
 							} else if strings.HasPrefix(shape, "allowed") && shape != "allowed-then-junk" {
-								if kc.name != "discrete-128-names" || n > 128 {
+								if kc.many == nil || n > len(kc.many) {
 									continue
 								}
+								many := kc.many
+								spellName := func(s string) string { return s }
 								pre, post, sep := "", "", ","
 								switch shape {
 								case "allowed-sp":
@@ -275,6 +307,10 @@ func cmdC18(args []string) {
 									pre = "\t"
 								case "allowed-both":
 									pre, post = "\t", " "
+								case "allowed-upper": // not byte-lower-case: refused, but refusing must not cost more for more elements
+									spellName = strings.ToUpper
+								case "allowed-title":
+									spellName = func(s string) string { return http.CanonicalHeaderKey(s) }
 								case "allowed-empties":
 									sep = ",,"
 									if n > 16 {
@@ -283,7 +319,7 @@ func cmdC18(args []string) {
 								}
 								var parts []string
 								for _, nm := range many[:n] {
-									parts = append(parts, pre+nm+post)
+									parts = append(parts, pre+spellName(nm)+post)
 								}
 								if shape == "allowed-lines" {
 									v = parts
